@@ -114,3 +114,14 @@ pub fn broadcast_pool(var: u64) -> Vec<Leaf> {
         Leaf { dims: vec![3, 2], vals: vec![1.0, 2.0, 0.5 + v, 3.0, 2.0, 1.0] },
     ]
 }
+
+/// leaves for programs around convolution: a batched image, filters, a per-filter bias, a map-shaped weight
+pub fn image_pool(var: u64) -> Vec<Leaf> {
+    let v = var as f64;
+    vec![
+        Leaf { dims: vec![2, 1, 3, 3], vals: (0..18).map(|i| ((i * 5 + 1) % 7) as f64 - 2.0 + v).collect() },
+        Leaf { dims: vec![2, 1, 2, 2], vals: vec![1.0, -2.0, 3.0 + v, 2.0, -1.0, 1.0, 2.0, -3.0] },
+        Leaf { dims: vec![2, 1, 1], vals: vec![1.0, -2.0 - v] },
+        Leaf { dims: vec![2, 2, 2], vals: vec![2.0, 1.0, -1.0, 3.0, 1.0 + v, -2.0, 2.0, 1.0] },
+    ]
+}
